@@ -28,11 +28,12 @@ StrSize == TraceLog[1].strsize
 VARIABLES mask, deps, heap, blocks, call,
           l,        \* next trace line
           skip,     \* consuming an execution unjudged after a foreign failure
-          proj      \* handle |-> expected projection (cache of Projection(SeedOf(h)))
+          proj,     \* handle |-> expected projection (cache of Projection(SeedOf(h)))
+          issued    \* string register |-> [seed, coin, lang, str]: phrases the library itself produced (history)
 
 INSTANCE Polyseed
 
-tvars == <<mask, deps, heap, blocks, call, l, skip, proj>>
+tvars == <<mask, deps, heap, blocks, call, l, skip, proj, issued>>
 
 Ev == TraceLog[l]
 
@@ -79,7 +80,7 @@ Advance == l' = l + 1
 \* a foreign failure: stop judging this execution
 GoSkip == /\ skip' = TRUE
           /\ Advance
-          /\ UNCHANGED <<mask, deps, heap, blocks, call, proj>>
+          /\ UNCHANGED <<mask, deps, heap, blocks, call, proj, issued>>
 
 \* (operator parameters are evaluated once by TLC; LET definitions once per use)
 OnVerdict(v, okStep) == CASE v = "ok" -> okStep [] v = "foreign" -> GoSkip [] OTHER -> FALSE
@@ -94,8 +95,8 @@ ArgsOf(e) ==
       [] e.op = "Create"  -> [lo |-> e.lo, hi |-> e.hi]
       [] e.op = "Free"    -> [h |-> e.h]
       [] e.op = "Encode"  -> [h |-> e.h, lang |-> LangNo(e.lang), coin |-> e.coin]
-      [] e.op = "Decode"  -> [str |-> e.str, len |-> e.len, coin |-> e.coin, lang |-> 0, wantlang |-> e.wantlang]
-      [] e.op = "DecodeX" -> [str |-> e.str, len |-> e.len, coin |-> e.coin, lang |-> LangNo(e.lang), wantlang |-> FALSE]
+      [] e.op = "Decode"  -> [str |-> e.str, len |-> e.len, coin |-> e.coin, lang |-> 0, wantlang |-> e.wantlang, sreg |-> e.sreg]
+      [] e.op = "DecodeX" -> [str |-> e.str, len |-> e.len, coin |-> e.coin, lang |-> LangNo(e.lang), wantlang |-> FALSE, sreg |-> e.sreg]
       [] e.op = "Store"   -> [h |-> e.h]
       [] e.op = "Load"    -> [buf |-> e.buf]
       [] e.op = "Crypt"   -> [h |-> e.h, pw |-> e.pw, len |-> e.len]
@@ -109,7 +110,7 @@ ArgsOf(e) ==
 
 TargetTags(op) ==
     CASE op = "Create" -> {"C18", "C11", "C10"}
-      [] op \in {"Decode", "DecodeX"} -> {"C01", "C08", "C09", "C03"}
+      [] op \in {"Decode", "DecodeX"} -> {"C08", "C09"}
       [] op = "Load" -> {"C06"}
       [] op = "Crypt" -> {"C12"}
       [] OTHER -> {}
@@ -164,13 +165,13 @@ LiveConds(live, i, newheap, target) ==
 TStart ==
     /\ Ev.e = "Start"
     /\ Advance
-    /\ UNCHANGED <<mask, deps, heap, blocks, call, skip, proj>>
+    /\ UNCHANGED <<mask, deps, heap, blocks, call, skip, proj, issued>>
 
 TReset ==
     /\ Ev.e = "Reset"
     /\ mask' = 0
     /\ deps' = DepsOfSet(<<"A", "A", "A", "A", "A", "A", "A", "A">>)
-    /\ heap' = <<>> /\ blocks' = <<>> /\ call' = None /\ proj' = <<>>
+    /\ heap' = <<>> /\ blocks' = <<>> /\ call' = None /\ proj' = <<>> /\ issued' = <<>>
     /\ skip' = FALSE
     /\ Advance
 
@@ -179,13 +180,13 @@ TEnd ==
     /\ IF Ev.complete THEN TRUE
        ELSE skip \/ (PrintT(<<"REJECT", l, "trace-cut-short", {"C14", "C13"}, "End">>) /\ FALSE)
     /\ Advance
-    /\ UNCHANGED <<mask, deps, heap, blocks, call, skip, proj>>
+    /\ UNCHANGED <<mask, deps, heap, blocks, call, skip, proj, issued>>
 
 TSkip ==
     /\ skip
     /\ Ev.e \notin {"Reset", "End", "Start"}
     /\ Advance
-    /\ UNCHANGED <<mask, deps, heap, blocks, call, skip, proj>>
+    /\ UNCHANGED <<mask, deps, heap, blocks, call, skip, proj, issued>>
 
 FaultTags(op) ==
     CASE op \in {"decode", "decodex", "crypt", "load"} -> {"C14", "C13", "C19"}
@@ -210,7 +211,7 @@ TBegin ==
     /\ OnVerdict(Verdict(<< Cond("no-call-in-flight", {"C13"}, call = None),
                             Cond("handle-is-live", {"HARNESS"},
                                  (UsesHandle(Ev.op) /\ ~(Ev.op = "Free" /\ Ev.h = 0)) => Ev.h \in DOMAIN heap) >>),
-                 Begin(Ev.op, ArgsOf(Ev)) /\ Advance /\ UNCHANGED <<skip, proj>>)
+                 Begin(Ev.op, ArgsOf(Ev)) /\ Advance /\ UNCHANGED <<skip, proj, issued>>)
 
 DepKinds == {"Alloc", "Free", "Memzero", "Rand", "Time", "Kdf", "Nfkd", "Nfc", "Forbidden"}
 
@@ -219,7 +220,7 @@ TDep ==
     /\ Ev.e \in DepKinds
     /\ OnVerdict(Verdict(IF call = None THEN << Cond("dependency-used-outside-a-call", {"C13", "C18"}, FALSE) >>
                          ELSE DepConds(Ev)),
-                 DepUpdate(Ev) /\ Advance /\ UNCHANGED <<skip, proj>>)
+                 DepUpdate(Ev) /\ Advance /\ UNCHANGED <<skip, proj, issued>>)
 
 TargetOf(r) ==
     IF call.op \in ConstructorOps THEN r.h
@@ -227,26 +228,55 @@ TargetOf(r) ==
 
 LiveSet(r) == { r.live[i].h : i \in 1..Len(r.live) }
 
+\* C01 / C05 as a relation between the library's own encoder and decoders: a phrase the library issued for
+\* (seed, coin, language) must decode for that coin (and language) to that seed, and for no other coin
+RoundTripConds(r, exp) ==
+    IF call.op \in {"Decode", "DecodeX"} /\ call.a.sreg \in DOMAIN issued /\ issued[call.a.sreg].str = call.a.str
+          /\ (call.op = "DecodeX" => call.a.lang = issued[call.a.sreg].lang)
+    THEN LET it == issued[call.a.sreg]
+         IN IF call.a.coin = it.coin
+            THEN << Cond("own-phrase-decodes-to-the-same-seed", {"C01", "C05", "C13"},
+                         (~AllocFailed /\ Supported(it.seed.features, mask)) =>
+                            \/ (r.st = StOK /\ exp.st = StOK /\ exp.seed = it.seed
+                                   /\ (call.op = "Decode" => exp.lang = it.lang))
+                            \/ (call.op = "Decode" /\ r.st = StMultLang /\ exp.st = StMultLang)) >>
+            ELSE << Cond("own-phrase-rejected-for-another-coin", {"C05", "C13"},
+                         \/ r.st = StChecksum
+                         \/ (call.op = "Decode" /\ r.st = StMultLang /\ exp.st = StMultLang)) >>
+    ELSE <<>>
+
+IssuedAfter(r) ==
+    IF call.op = "Encode" /\ r.str # <<>>
+    THEN (r.sreg :> [seed |-> SeedOf(call.a.h), coin |-> call.a.coin, lang |-> call.a.lang, str |-> r.str]) @@ issued
+    ELSE issued
+
 TRetLive(r, nh, t) ==
     OnVerdict(Verdict(<< Cond("live-seeds-are-the-model's", {"C13", "C15"},
                              r.live = <<>> \/ LiveSet(r) = DOMAIN nh) >>
                       \o LiveCondsWith(r.live, nh, IF t # 0 /\ t \in DOMAIN nh THEN t ELSE 0)),
-              /\ ReturnUpdate(r, nh) /\ Advance /\ skip' = skip
+              /\ ReturnUpdate(r, nh) /\ Advance /\ skip' = skip /\ issued' = IssuedAfter(r)
               /\ proj' = [h \in DOMAIN nh |-> IF h \in DOMAIN proj /\ h # t THEN proj[h]
                                                ELSE Projection(nh[h].seed)])
 
-TRetEval(r, ev) == OnVerdict(Verdict(ev.conds), TRetLive(r, ev.heap, TargetOf(r)))
+TRetEval(r, ev) == OnVerdict(Verdict(ev.conds \o RoundTripConds(r, ev.exp)), TRetLive(r, ev.heap, TargetOf(r)))
 
 TRet ==
     /\ ~skip
     /\ Ev.e = "Ret"
     /\ TRetEval(Ev, IF call # None /\ call.op = Ev.op THEN RetEval(Ev)
-                    ELSE [conds |-> << Cond("return-matches-call", {"C13"}, FALSE) >>, heap |-> heap])
+                    ELSE [conds |-> << Cond("return-matches-call", {"C13"}, FALSE) >>, heap |-> heap, exp |-> Failure(StLang)])
 
 -----------------------------------------------------------------------------
 (* direct observations of internals (optional: absent if refactored away)   *)
 
-Same == UNCHANGED <<mask, deps, heap, blocks, call, skip, proj>>
+Same == UNCHANGED <<mask, deps, heap, blocks, call, skip, proj, issued>>
+
+TStr ==       \* a literal was put into a string register: whatever the library had issued there is gone
+    /\ ~skip
+    /\ Ev.e = "Str"
+    /\ issued' = [k \in (DOMAIN issued) \ {Ev.sreg} |-> issued[k]]
+    /\ Advance
+    /\ UNCHANGED <<mask, deps, heap, blocks, call, skip, proj>>
 
 TWords ==
     /\ ~skip
@@ -280,12 +310,12 @@ TEval ==
 
 TraceInit ==
     /\ Init
-    /\ l = 1 /\ skip = FALSE /\ proj = <<>>
+    /\ l = 1 /\ skip = FALSE /\ proj = <<>> /\ issued = <<>>
 
 TraceNext ==
     /\ l <= N
     /\ \/ TStart \/ TReset \/ TEnd \/ TSkip \/ TFault \/ TBegin \/ TDep \/ TRet
-       \/ TWords \/ TFind \/ TMul2 \/ TEval
+       \/ TWords \/ TFind \/ TMul2 \/ TEval \/ TStr
 
 TraceSpec == TraceInit /\ [][TraceNext]_tvars
 
